@@ -123,6 +123,10 @@ func Load(o LoadOpts) (*World, error) {
 				kind = "an empty struct literal filled field by field right away is the keyed literal again in "
 			}
 			if len(subs) == 0 {
+				ov, subs = w.restoreTailIndexLoops(o.Overlay)
+				kind = "a range over the tail of a slice is the index loop over that tail again in "
+			}
+			if len(subs) == 0 {
 				ov, subs = w.restoreForClauses(o.Overlay)
 				kind = "an initialisation followed by a condition-only loop that ends in the step is a three-clause loop again in "
 			}
